@@ -390,3 +390,64 @@ func ruleUpdateCalledForRequestsOnly(w *World, r *Run, rule string) {
 		r.Pass(rule, fnUpdate+" | called for requests only", "", "")
 	}
 }
+
+// rulePoolPutOnce: on every path of a function, an object taken from a sync.Pool is put back at most once (deferred puts
+// count): an object that is in the pool twice is handed to two requests at the same time — two bodies parsed through one
+// buffered reader, one of them re-pointed at the other's source mid-read.
+func rulePoolPutOnce(w *World, r *Run, rule string) {
+	n, bad := 0, 0
+	for _, fn := range w.prodFns() {
+		if fn.Parent() != nil || fn.Synthetic != "" {
+			continue
+		}
+		puts := false
+		var scan func(f *ssa.Function)
+		scan = func(f *ssa.Function) {
+			for _, b := range f.Blocks {
+				for _, in := range b.Instrs {
+					if c, ok := in.(ssa.CallInstruction); ok && ssaCallName(c.Common()) == "(*sync.Pool).Put" {
+						puts = true
+					}
+				}
+			}
+			for _, a := range f.AnonFuncs {
+				scan(a)
+			}
+		}
+		scan(fn)
+		if !puts {
+			continue
+		}
+		n++
+		e := w.engine(1, 1)
+		for _, s := range e.Explore(fn) {
+			if s.Trunc != "" || s.Panic {
+				continue
+			}
+			cnt := map[string]int{}
+			var pos token.Pos
+			for _, ev := range s.Events {
+				if (ev.Kind == "call" || ev.Kind == "defer") && ev.Callee == "(*sync.Pool).Put" && len(ev.Args) == 1 && ev.Args[0] != nil {
+					cnt[ev.Args[0].key]++
+					if cnt[ev.Args[0].key] == 2 {
+						pos = ev.Pos
+					}
+				}
+			}
+			for _, c := range cnt {
+				if c > 1 {
+					bad++
+					r.Fail(rule, funcName(fn)+" | a pooled object is put back at most once", w.pos(pos), "a path of this function puts the same object into the sync.Pool twice (an explicit Put in addition to the deferred one): the pool then hands that object to two requests at once, and each re-points or overwrites what the other is reading")
+					break
+				}
+			}
+			if bad > 0 {
+				break
+			}
+		}
+	}
+	r.sites += n
+	if bad == 0 {
+		r.Pass(rule, "module | a pooled object is put back at most once", "", "")
+	}
+}
